@@ -120,7 +120,7 @@ fn verif_grid() {
         mi += 1;
         let multiset: Vec<&str> = ids.iter().map(|i| pool[*i]).collect();
         for (si, st) in statements.iter().enumerate() {
-            if ids.len() == 4 && (mi + si) % 2 != 0 { continue; }
+            if ids.len() == 4 && left_out(mi + si, 2) { continue; }
             let m = multiset.clone();
             g.case(&format!("perm-m{}-s{}", mi, si), move || check_permutations(st, &m, false));
         }
@@ -149,7 +149,7 @@ fn verif_grid() {
             let multiset: Vec<&str> = ids.iter().map(|i| big[*i]).collect();
             for (si, st) in ["SELECT k, MIN(v) AS lo, MAX(v) AS hi, COUNT(DISTINCT v) AS d FROM t GROUP BY k", "SELECT MIN(v) AS lo, MAX(v) AS hi FROM t",
                              "SELECT k, STDDEV(v) AS sd, VARIANCE(v) AS var FROM t WHERE v < 2000000000 AND v > 0 GROUP BY k", "SELECT k, PERCENTILE(v, 0.5) AS med FROM t GROUP BY k"].iter().enumerate() {
-                if (mi + si) % 2 != 0 && ids.len() == 3 { continue; }
+                if left_out(mi + si, 2) && ids.len() == 3 { continue; }
                 let m = multiset.clone();
                 g.case(&format!("big-m{}-s{}", mi, si), move || check_permutations(st, &m, false));
             }
@@ -214,7 +214,7 @@ fn verif_grid() {
         }
     }
     for (bi, base) in sequences(&pool[..6], 4).into_iter().enumerate() {
-        if base.len() < 2 || (base.len() == 4 && bi % 5 != 0) { continue; }
+        if base.len() < 2 || (base.len() == 4 && left_out(bi, 5)) { continue; }
         for cut in 0..=base.len() {
             let b1 = base.clone();
             g.case(&format!("cut-b{}-at{}", bi, cut), move || check_cut(&b1, cut));
